@@ -113,8 +113,9 @@ int main(int argc, char** argv) {
         // as<const char*>() of every string must be NUL-terminated at size(): checked inside show via JsonString? do it for root strings
         if (d.is<const char*>()) { JsonString s = d.as<JsonString>(); if (s.c_str()[s.size()] != 0) out += " NOT-NUL-TERMINATED"; }
       }
-    } else if (op == "mpde") {
+    } else if (op == "mpde" || op == "mpde0") {
       int rk, lim; string fhex, hex; is >> rk >> lim >> fhex >> hex;
+      if ((op == "mpde0") != (ARDUINOJSON_USE_DOUBLE == 0)) { std::cout << "cfg-mismatch\n"; continue; }
       string in = unhex(hex);
       bool pre = rk >= 100; if (pre) rk -= 100;
       JsonDocument d(&SPY0); if (pre) prefill(d);
